@@ -267,6 +267,13 @@ func fieldName(t types.Type, idx int) string {
 	if !ok || idx >= st.NumFields() {
 		return fmt.Sprintf("#%d", idx)
 	}
+	if len(canonFields) > 0 {
+		if nt, isNamed := t.(*types.Named); isNamed {
+			if c, ok := canonFields[canonKey{nt.Origin(), idx}]; ok {
+				return c
+			}
+		}
+	}
 	return st.Field(idx).Name()
 }
 
